@@ -4,3 +4,15 @@ import NTV.Proofs.C08
 #print axioms NTV.C08.division_contract
 #print axioms NTV.C08.gcd_divides_both
 #print axioms NTV.C08.input_reduction
+#print axioms NTV.C08.squarefree_product
+#print axioms NTV.C08.degree_product
+#print axioms NTV.C08.finalSplit_product
+#print axioms NTV.C08.product_identity
+#print axioms NTV.C08.factor_shape
+#print axioms NTV.C08.constant_input
+#print axioms NTV.C08.pusize_irrelevant
+#print axioms NTV.C08.pusize_irrelevant_small_degree
+#print axioms NTV.C08.distinct_degree_sound
+#print axioms NTV.C08.factors_irreducible
+#print axioms NTV.C08.factors_distinct
+#print axioms NTV.C08.factorization_correct
